@@ -42,6 +42,7 @@ def cases(draw, tier="quick"):
         c["recs"][0] = [draw(st.integers(0, 40)) for _ in range(draw(st.integers(17, 40)))]
     c["mode"] = [draw(st.sampled_from(["read-early", "read-late", "read-mixed", "consumer", "tofile-exact",
                                        "tofile-below", "tofile-above", "chain"])) for _ in range(2)]
+    c["cpause"] = draw(st.booleans())      # consumers ask for a pause from inside write() and resume a moment later
     c["ops"] = draw(st.lists(st.sampled_from(["flip-len", "flip-nonce", "flip-body", "flip-tag", "delete", "swap",
                                               "replay", "inject", "cross", "truncate"]), max_size=1))
     if draw(st.integers(0, 2)) == 0:
@@ -221,13 +222,24 @@ def run_case(c):
             self.data = []
 
         def registerProducer(self, p, streaming):
-            pass
+            self.p = p
+            self.want_resume = False
 
         def unregisterProducer(self):
             pass
 
         def write(self, b):
             self.data.append(b)
+            if c.get("cpause") and getattr(self, "p", None) is not None:
+                # a flow-controlled consumer: asks for a pause from inside write() and resumes a moment later
+                self.p.pauseProducing()
+                self.want_resume = True
+
+    def resume_consumers():
+        for s_ in sinks:
+            if isinstance(s_, FC) and getattr(s_, "want_resume", False):
+                s_.want_resume = False
+                s_.p.resumeProducing()
 
     def issue_read(e):
         d = conns[e].receive_record()
@@ -403,6 +415,7 @@ def run_case(c):
     idle_left = [int(c.get("idle") or 0)]
     idles = [0]
     for step in range(6000):
+        resume_consumers()
         for d in range(2):
             collect(d)
         choices = []
@@ -452,6 +465,7 @@ def run_case(c):
             break
     # flush: send and deliver everything that is left, no more manipulation
     for _ in range(400):
+        resume_consumers()
         for d in range(2):
             while pending[d] and not pipes[d].lose and not stream_ended[d] and ready[d]:
                 rec = pending[d].pop(0)
@@ -463,6 +477,7 @@ def run_case(c):
         for d in range(2):
             if frames[d] and not pipes[1 - d].lose:
                 deliver(d, None)
+    resume_consumers()
     for e in range(2):
         if c["mode"][e] in ("read-late", "read-mixed"):
             while len(reads[e]) < len(c["recs"][1 - e]) + 1 and not pipes[e].lose and ready[e]:
